@@ -597,7 +597,9 @@ def slim(c):
 
 
 def crash_verdict(ctx, c, res, stats):
-    why = str(res["why"])[:700]
+    why = str(res["why"])
+    i = why.find("ERROR:")
+    why = (why[i:] if i >= 0 else why).replace("=" * 20, "")[:700]
     if c["kind"] == "EMB" and c["n"] == c["d"] + 1 and ("heap-buffer-overflow" in why or "AddressSanitizer" in why):
         stats.counts["f7_seen"] += 1
         ctx.violation(slim(c), "eigenvalue slice segment(skip, skip+d) reads past the end when N = d + skip: " + why,
